@@ -16,11 +16,11 @@
 
    Three switches select the repaired code (true) or the pinned tree (false):
      chk   validateResponseFields also rejects a block whose stated hash differs from the hash of
-           its header (fixes/C32-1-stated-hash.patch)
+           its header (/repo commit c7e99412f, fixes/applied/C32-1-stated-hash.patch)
      frg   Process ignores empty responses and turns every completed block into a fragment of its
-           own (fixes/C32-2-ready-fragments.patch)
+           own (/repo commit d71df5dea, fixes/applied/C32-2-ready-fragments.patch)
      lg    the log line for a known bad block no longer dereferences the (possibly nil) header
-           (fixes/C32-3-bad-block-nil-header.patch) *)
+           (/repo commit faca5e8e2, fixes/applied/C32-3-bad-block-nil-header.patch) *)
 From Coq Require Import NArith ZArith List Bool.
 From Common Require Import Outcome.
 From C32 Require Import Gen.
